@@ -9,11 +9,13 @@
 //          evaluated per repetition for the configuration in force.
 // Oracle:  selection predicate written from the property statement on std::string; per repetition the execution
 //          counters, the four TestResult counters, the complete callback stream and the registry walk.
+#include <functional>   // before the CppUTest headers: their "new" macro breaks placement new in libstdc++
 #include "common.h"
 #include <map>
 #include <memory>
 #include <deque>
 #include <algorithm>
+#include "CppUTest/CommandLineTestRunner.h"
 
 using verif::Reader;
 using verif::sfmt;
@@ -34,21 +36,26 @@ class NormalShell : public UtestShell {
 public:
     int id_;
     NormalShell(int id, const char* g, const char* n) : UtestShell(g, n, "c02.cpp", (size_t)(100 + id)), id_(id) {}
+    explicit NormalShell(int id) : UtestShell(), id_(id) {}   // named and registered by a TestInstaller, as the TEST macro does
     Utest* createTest() CPPUTEST_OVERRIDE { return new CountingUtest(id_); }
 };
 class IgnoredShell : public IgnoredUtestShell {
 public:
     int id_;
     IgnoredShell(int id, const char* g, const char* n) : IgnoredUtestShell(g, n, "c02.cpp", (size_t)(100 + id)), id_(id) {}
+    explicit IgnoredShell(int id) : IgnoredUtestShell(), id_(id) {}
     Utest* createTest() CPPUTEST_OVERRIDE { return new CountingUtest(id_); }
 };
 
 // ---------------------------------------------------------------- recording output
 struct Ev { char kind; int id; };   // S tests started, E tests ended, G group started(first test), g group ended, T test started(test), t test ended
 std::map<const UtestShell*, int>* g_ids;
+std::vector<Ev> g_runner_events;   // events of outputs created by the runner (it owns and deletes them)
 class RecOutput : public TestOutput {
 public:
-    std::vector<Ev> ev;
+    std::vector<Ev> own; std::vector<Ev>& ev;
+    RecOutput() : ev(own) {}
+    explicit RecOutput(std::vector<Ev>& shared) : ev(shared) {}
     static int idOf(const UtestShell& s) { auto it = g_ids->find(&s); return it == g_ids->end() ? -1 : it->second; }
     void printTestsStarted() CPPUTEST_OVERRIDE { ev.push_back({'S', -1}); }
     void printTestsEnded(const TestResult&) CPPUTEST_OVERRIDE { ev.push_back({'E', -1}); }
@@ -64,6 +71,30 @@ std::string render(const std::vector<Ev>& ev) {
     for (auto& e : ev) { o.push_back(e.kind); if (e.id >= 0 || e.kind == 'T' || e.kind == 'G') o += sfmt("%d", e.id); o.push_back(' '); }
     return o;
 }
+
+// ---------------------------------------------------------------- separate-process seam (runs in this process, counts the calls)
+int g_sep_calls;
+void sep_process_stub(UtestShell* shell, TestPlugin* plugin, TestResult* result) { g_sep_calls++; shell->runOneTestInCurrentProcess(plugin, *result); }
+void (*g_orig_sep)(UtestShell*, TestPlugin*, TestResult*);
+
+// ---------------------------------------------------------------- a registry that lets the harness look before and after every real runAllTests
+class SpyRegistry : public TestRegistry {
+public:
+    std::function<int()> before; std::function<int(TestResult&)> after;
+    int rc = 0; size_t calls = 0;
+    void runAllTests(TestResult& result) CPPUTEST_OVERRIDE {
+        calls++;
+        if (rc == 0 && before) rc = before();
+        if (rc != 0) return;                      // an inconsistent list must not be run (it may not terminate)
+        TestRegistry::runAllTests(result);        // the real thing
+        if (after) rc = after(result);
+    }
+};
+class SpyRunner : public CommandLineTestRunner {
+public:
+    SpyRunner(int ac, const char* const* av, TestRegistry* reg) : CommandLineTestRunner(ac, av, reg) {}
+    TestOutput* createConsoleOutput() CPPUTEST_OVERRIDE { return new RecOutput(g_runner_events); }
+};
 
 // ---------------------------------------------------------------- scripted rand seam
 std::vector<int> g_script; size_t g_script_pos;
@@ -117,7 +148,7 @@ std::string show(const FilterSpec& f) { return sfmt("%s%s\"%s\"", f.inverted ? "
 void reset_current_registry() { static TestRegistry keeper; keeper.setCurrentRegistry(NULLPTR); }
 
 struct SeamGuard {
-    ~SeamGuard() { PlatformSpecificSrand = g_orig_srand; PlatformSpecificRand = g_orig_rand; reset_current_registry(); }
+    ~SeamGuard() { PlatformSpecificSrand = g_orig_srand; PlatformSpecificRand = g_orig_rand; PlatformSpecificRunTestInASeperateProcess = g_orig_sep; reset_current_registry(); }
 };
 
 bool walk(TestRegistry& reg, size_t n, std::vector<int>& ids) {
@@ -177,7 +208,7 @@ FilterSpec gen_filter(Reader& r, int which, const std::deque<TestSpec>& tests) {
 }
 
 // what a long-lived registry sees between two runs
-enum ChangeKind { CH_NONE = 0, CH_REPLACE_FILTERS, CH_ADD_FILTER, CH_CLEAR_FILTERS, CH_ADD_TESTS, CH_REMOVE_FIRST, CH_REVERSE, CH_RUN_IGNORED_ON, CH_KINDS };
+enum ChangeKind { CH_NONE = 0, CH_REPLACE_FILTERS, CH_ADD_FILTER, CH_CLEAR_FILTERS, CH_ADD_TESTS, CH_REMOVE_FIRST, CH_REVERSE, CH_RUN_IGNORED_ON, CH_SEP_PROCESS_ON, CH_KINDS };
 struct Change { ChangeKind kind; int which; std::vector<FilterSpec> fs; std::vector<size_t> new_tests; };
 
 int run_case(Reader& r, bool& nontrivial, std::string& desc) {
@@ -241,6 +272,12 @@ int run_case(Reader& r, bool& nontrivial, std::string& desc) {
             changes[rep].push_back(c);
         }
     }
+    // trailing mode byte (old inputs: 0 = none of these)
+    uint8_t extras = r.u8();
+    bool via_installer = (extras & 1u) != 0;          // tests named and registered by TestInstaller objects into the current registry
+    bool sep_process = (extras & 2u) != 0;            // setRunTestsInSeperateProcess() from the start
+    bool through_runner = ((extras >> 2) & 3u) == 1;  // repetitions, -b, -s<seed>, -ri, -p and the filters go through CommandLineTestRunner
+    if (through_runner) { for (auto& cs : changes) cs.clear(); n_changes = 0; tests.resize(n); if (ri_mode >= 2) ri_mode = 0; if (do_shuffle) seed = seed % 99999 + 1; }
     size_t total = tests.size();
 
     // ---------------- model of the selection for the configuration in force (initially; re-evaluated per repetition)
@@ -285,9 +322,12 @@ int run_case(Reader& r, bool& nontrivial, std::string& desc) {
       if (has_ign) verif::cls(run_ignored ? "ignored-tests-run" : "ignored-tests-skipped");
       if (has_ign && late_ri) verif::cls("between-runs:run-ignored-switched-on-with-ignored-tests"); }
     { static const char* rn[] = {"", "reps=1", "reps=2", "reps=3"}; verif::cls(rn[reps]); }
+    if (via_installer) verif::cls("registered:through-TestInstaller");
+    if (sep_process) verif::cls("separate-process:from-start");
+    if (through_runner) verif::cls(do_shuffle ? (reps > 1 ? "through-runner:shuffle-repeated" : "through-runner:shuffle") : "through-runner:no-shuffle");
     if (n_changes) verif::cls("between-runs:some-change");
     for (auto& cs : changes) for (auto& c : cs) {
-        static const char* cn[] = {"", "between-runs:filters-replaced", "between-runs:filter-added", "between-runs:filters-cleared", "between-runs:tests-added", "between-runs:first-test-removed", "between-runs:reverse", "between-runs:run-ignored-on"};
+        static const char* cn[] = {"", "between-runs:filters-replaced", "between-runs:filter-added", "between-runs:filters-cleared", "between-runs:tests-added", "between-runs:first-test-removed", "between-runs:reverse", "between-runs:run-ignored-on", "between-runs:separate-process-on"};
         if (c.kind != CH_NONE) verif::cls(cn[c.kind]);
     }
 
@@ -312,23 +352,42 @@ int run_case(Reader& r, bool& nontrivial, std::string& desc) {
         case CH_REMOVE_FIRST: desc += "remove first test"; break;
         case CH_REVERSE: desc += "reverse"; break;
         case CH_RUN_IGNORED_ON: desc += "run-ignored on"; break;
+        case CH_SEP_PROCESS_ON: desc += "separate process on"; break;
         default: break;
         }
     }
+    if (via_installer) desc += "; TestInstaller";
+    if (sep_process) desc += "; separate process";
+    if (through_runner) desc += "; through the runner";
     if (verif::g_explain) fprintf(stderr, "case: %s\n", desc.c_str());
 
     // ---------------- build the real thing
     SeamGuard guard;
-    TestRegistry reg;
+    SpyRegistry reg;
     reg.setCurrentRegistry(&reg);
+    V_CHECK(TestRegistry::getCurrentRegistry() == &reg, "C02:current-registry", "getCurrentRegistry() does not return the registry made current");
+    PlatformSpecificRunTestInASeperateProcess = sep_process_stub; g_sep_calls = 0;
     std::vector<std::unique_ptr<UtestShell>> shells;
+    std::vector<std::unique_ptr<TestInstaller>> installers;
     std::map<const UtestShell*, int> ids; g_ids = &ids;
     for (size_t i = 0; i < total; i++) {
-        UtestShell* s = tests[i].ignored ? (UtestShell*)new IgnoredShell((int)i, tests[i].group.c_str(), tests[i].name.c_str())
-                                         : (UtestShell*)new NormalShell((int)i, tests[i].group.c_str(), tests[i].name.c_str());
+        UtestShell* s;
+        if (via_installer) s = tests[i].ignored ? (UtestShell*)new IgnoredShell((int)i) : (UtestShell*)new NormalShell((int)i);
+        else s = tests[i].ignored ? (UtestShell*)new IgnoredShell((int)i, tests[i].group.c_str(), tests[i].name.c_str())
+                                  : (UtestShell*)new NormalShell((int)i, tests[i].group.c_str(), tests[i].name.c_str());
         shells.emplace_back(s); ids[s] = (int)i;
     }
-    for (size_t i = 0; i < n; i++) reg.addTest(shells[i].get());
+    // registration: directly, or the way the TEST macro does it (a TestInstaller names the shell and adds it to the current registry)
+    auto register_test = [&](size_t i) {
+        if (via_installer) installers.emplace_back(new TestInstaller(*shells[i], tests[i].group.c_str(), tests[i].name.c_str(), "c02.cpp", (size_t)(100 + i)));
+        else reg.addTest(shells[i].get());
+    };
+    for (size_t i = 0; i < n; i++) register_test(i);
+    if (via_installer) for (size_t i = 0; i < n; i++) {
+        std::string g = shells[i]->getGroup().asCharString(), nm = shells[i]->getName().asCharString();
+        V_CHECK(g == tests[i].group && nm == tests[i].name && shells[i]->getLineNumber() == 100 + i, "C02:installer-naming", "TestInstaller named test #%zu %s.%s line %zu, expected %s.%s line %zu",
+                i, g.c_str(), nm.c_str(), shells[i]->getLineNumber(), tests[i].group.c_str(), tests[i].name.c_str(), 100 + i);
+    }
     std::vector<std::unique_ptr<TestFilter>> real_filters;   // owns every filter object of the case
     TestFilter* heads[2] = {NULLPTR, NULLPTR};
     auto make_filter = [&](const FilterSpec& f) {
@@ -340,7 +399,11 @@ int run_case(Reader& r, bool& nontrivial, std::string& desc) {
     };
     auto install = [&](int which) { if (which == 0) reg.setGroupFilters(heads[0]); else reg.setNameFilters(heads[1]); };
     for (int which = 0; which < 2; which++) { for (auto& f : filters[which]) heads[which] = make_filter(f)->add(heads[which]); install(which); }
-    if (run_ignored) reg.setRunIgnored();
+    bool sep_on = false;
+    if (!through_runner) {
+        if (run_ignored) reg.setRunIgnored();
+        if (sep_process) { reg.setRunTestsInSeperateProcess(); sep_on = true; }
+    }
     if (scripted) { PlatformSpecificSrand = scripted_srand; PlatformSpecificRand = scripted_rand; }
 
     std::vector<int> order, prev;
@@ -355,44 +418,25 @@ int run_case(Reader& r, bool& nontrivial, std::string& desc) {
     };
     if (do_reverse) if (int rc = reverse_checked()) return rc;
     bool nonadjacent_repeat = false, adjacent_equal = false;
-    for (size_t rep = 0; rep < reps; rep++) {
-        // ---- what happens to the long-lived registry between two runs
-        if (rep > 0 && ri_mode >= 2 && rep == ri_mode - 1 && !run_ignored) { reg.setRunIgnored(); run_ignored = true; }
-        for (auto& c : changes[rep]) {
-            switch (c.kind) {
-            case CH_REPLACE_FILTERS:
-                filters[c.which] = c.fs; heads[c.which] = NULLPTR;
-                for (auto& f : c.fs) heads[c.which] = make_filter(f)->add(heads[c.which]);
-                install(c.which); break;
-            case CH_ADD_FILTER:
-                filters[c.which].push_back(c.fs[0]); heads[c.which] = make_filter(c.fs[0])->add(heads[c.which]);
-                install(c.which); break;
-            case CH_CLEAR_FILTERS: filters[c.which].clear(); heads[c.which] = NULLPTR; install(c.which); break;
-            case CH_ADD_TESTS:
-                for (size_t i : c.new_tests) { reg.addTest(shells[i].get()); present.push_back((int)i); }
-                std::sort(present.begin(), present.end());
-                if (int rc = check_walk("after addTest between runs", reg, present, order)) return rc;
-                break;
-            case CH_REMOVE_FIRST:
-                if (!order.empty()) {
-                    int gone = order[0];
-                    reg.unDoLastAddTest();
-                    present.erase(std::find(present.begin(), present.end(), gone));
-                    std::vector<int> expect(order.begin() + 1, order.end());
-                    if (int rc = check_walk("after unDoLastAddTest between runs", reg, present, order)) return rc;
-                    V_CHECK(order == expect, "C02:remove-first", "unDoLastAddTest left %s, expected %s", show_ids(order).c_str(), show_ids(expect).c_str());
-                }
-                break;
-            case CH_REVERSE: if (int rc = reverse_checked()) return rc; break;
-            case CH_RUN_IGNORED_ON: reg.setRunIgnored(); run_ignored = true; break;
-            default: break;
-            }
+    size_t rep = 0;                              // index of the repetition being run / judged
+    size_t ev_start = 0;
+    std::vector<int> runner_expected_order;      // through the runner without shuffling: the order every repetition has to use
+    g_runner_events.clear();
+    // ---- immediately before the real runAllTests: the list must be sound, then the model for the configuration in force
+    reg.before = [&]() -> int {
+        if (through_runner) {
+            if (int rc = check_walk("at the start of a repetition driven by the runner", reg, present, order)) return rc;
+            if (!do_shuffle) V_CHECK(order == runner_expected_order, "C02:runner-order", "repetition %zu through the runner runs in order %s, expected %s (reverse=%d) [%s]",
+                                     rep + 1, show_ids(order).c_str(), show_ids(runner_expected_order).c_str(), (int)do_reverse, desc.c_str());
         }
-        if (do_shuffle) {
-            reg.shuffleTests(seed);
-            if (int rc = check_walk("after shuffleTests", reg, present, order)) return rc;
-        }
-        evaluate();   // the model for the configuration in force for this repetition
+        evaluate();
+        g_exec.assign(total, 0); g_exec_order.clear(); g_sep_calls = 0;
+        ev_start = g_runner_events.size();
+        return 0;
+    };
+    // ---- immediately after it: everything the statement says about one repetition
+    reg.after = [&](TestResult& tr) -> int {
+        std::vector<Ev> evs(g_runner_events.begin() + (long)ev_start, g_runner_events.end());
         size_t np = present.size();
         auto cfg = [&]() {   // only rendered when a check fails
             std::string c = sfmt("repetition %zu (run-ignored %d, group filters {", rep + 1, (int)run_ignored);
@@ -401,12 +445,6 @@ int run_case(Reader& r, bool& nontrivial, std::string& desc) {
             for (auto& f : filters[1]) c += show(f) + " ";
             return c + "})";
         };
-
-        g_exec.assign(total, 0); g_exec_order.clear();
-        RecOutput out;
-        TestResult tr(out);
-        reg.runAllTests(tr);
-
         std::vector<int> after;
         if (int rc = check_walk("after runAllTests", reg, present, after)) return rc;
         V_CHECK(after == order, "C02:run-changed-order", "runAllTests changed the registry order: %s -> %s", show_ids(order).c_str(), show_ids(after).c_str());
@@ -443,22 +481,95 @@ int run_case(Reader& r, bool& nontrivial, std::string& desc) {
         // balance first (the statement), then the exact stream (DESIGN: one start per maximal equal-group run)
         {
             int depth_g = 0, depth_t = 0; size_t starts = 0; bool ok = true;
-            for (auto& e : out.ev) {
+            for (auto& e : evs) {
                 if (e.kind == 'G') { ok &= depth_g == 0 && depth_t == 0; depth_g++; starts++; }
                 else if (e.kind == 'g') { ok &= depth_g == 1 && depth_t == 0; depth_g--; }
                 else if (e.kind == 'T') { ok &= depth_g == 1 && depth_t == 0; depth_t++; }
                 else if (e.kind == 't') { ok &= depth_t == 1; depth_t--; }
             }
             ok &= depth_g == 0 && depth_t == 0;
-            V_CHECK(ok, "C02:notifications-unbalanced", "repetition %zu: callback stream not of the form S (G (T t)* g)* E: %s [%s]", rep + 1, render(out.ev).c_str(), desc.c_str());
+            V_CHECK(ok, "C02:notifications-unbalanced", "repetition %zu: callback stream not of the form S (G (T t)* g)* E: %s [%s]", rep + 1, render(evs).c_str(), desc.c_str());
             V_CHECK(starts == group_runs, "C02:group-start-count", "repetition %zu: %zu group starts for %zu maximal equal-group runs: %s order %s [%s]",
-                    rep + 1, starts, group_runs, render(out.ev).c_str(), show_ids(order).c_str(), desc.c_str());
+                    rep + 1, starts, group_runs, render(evs).c_str(), show_ids(order).c_str(), desc.c_str());
         }
-        bool same = want.size() == out.ev.size();
-        for (size_t i = 0; same && i < want.size(); i++) same = want[i].kind == out.ev[i].kind && want[i].id == out.ev[i].id;
-        V_CHECK(same, "C02:callback-stream", "%s: callbacks %s expected %s [%s]", cfg().c_str(), render(out.ev).c_str(), render(want).c_str(), desc.c_str());
+        bool same = want.size() == evs.size();
+        for (size_t i = 0; same && i < want.size(); i++) same = want[i].kind == evs[i].kind && want[i].id == evs[i].id;
+        V_CHECK(same, "C02:callback-stream", "%s: callbacks %s expected %s [%s]", cfg().c_str(), render(evs).c_str(), render(want).c_str(), desc.c_str());
         V_CHECK(want_exec == g_exec_order, "C02:execution-order", "repetition %zu: executed %s expected %s", rep + 1, show_ids(g_exec_order).c_str(), show_ids(want_exec).c_str());
         V_CHECK(reg.getCurrentRepetition() == (int)rep + 1, "C02:repetition-counter", "getCurrentRepetition()=%d after %zu runs", reg.getCurrentRepetition(), rep + 1);
+        for (int id : present) {   // the shell's own answer to "will this test run" follows the same rule
+            bool want_will = !tests[(size_t)id].ignored || run_ignored;
+            V_CHECK(shells[(size_t)id]->willRun() == want_will, "C02:willRun", "%s: after the run test #%d %s says willRun()=%d, expected %d [%s]",
+                    cfg().c_str(), id, show_test((size_t)id).c_str(), (int)shells[(size_t)id]->willRun(), (int)want_will, desc.c_str());
+        }
+        V_CHECK((size_t)g_sep_calls == (sep_on ? n_run : 0), "C02:separate-process", "%s: separate process %s, %d of %zu executions went through the separate-process seam [%s]",
+                cfg().c_str(), sep_on ? "on" : "off", g_sep_calls, n_run, desc.c_str());
+        rep++;
+        return 0;
+    };
+    if (through_runner) {
+        // the same configuration as an argument vector; the real runner loops, reverses, shuffles and hands the filters down
+        std::vector<std::string> args; args.push_back("c02.exe");
+        args.push_back(sfmt("-r%zu", reps));
+        if (do_reverse) args.push_back("-b");
+        if (do_shuffle) args.push_back(sfmt("-s%zu", seed));
+        if (run_ignored) args.push_back("-ri");
+        if (sep_process) { args.push_back("-p"); sep_on = true; }
+        for (int which = 0; which < 2; which++) for (auto& f : filters[which]) {
+            args.push_back(std::string("-") + (f.inverted ? "x" : "") + (f.strict ? "s" : "") + (which ? "n" : "g"));
+            args.push_back(f.text);
+        }
+        std::vector<const char*> av; for (auto& a : args) av.push_back(a.c_str());
+        runner_expected_order = order; if (do_reverse) std::reverse(runner_expected_order.begin(), runner_expected_order.end());
+        int result;
+        { SpyRunner runner((int)av.size(), av.data(), &reg); result = runner.runAllTestsMain(); }
+        UtestShell::setRethrowExceptions(false);
+        if (reg.rc) return reg.rc;
+        V_CHECK(reg.calls == reps && rep == reps, "C02:runner-repetitions", "-r%zu made the runner call runAllTests %zu times [%s]", reps, reg.calls, desc.c_str());
+        (void)result;
+    }
+    else for (size_t k = 0; k < reps; k++) {
+        // ---- what happens to the long-lived registry between two runs
+        if (k > 0 && ri_mode >= 2 && k == ri_mode - 1 && !run_ignored) { reg.setRunIgnored(); run_ignored = true; }
+        for (auto& c : changes[k]) {
+            switch (c.kind) {
+            case CH_REPLACE_FILTERS:
+                filters[c.which] = c.fs; heads[c.which] = NULLPTR;
+                for (auto& f : c.fs) heads[c.which] = make_filter(f)->add(heads[c.which]);
+                install(c.which); break;
+            case CH_ADD_FILTER:
+                filters[c.which].push_back(c.fs[0]); heads[c.which] = make_filter(c.fs[0])->add(heads[c.which]);
+                install(c.which); break;
+            case CH_CLEAR_FILTERS: filters[c.which].clear(); heads[c.which] = NULLPTR; install(c.which); break;
+            case CH_ADD_TESTS:
+                for (size_t i : c.new_tests) { register_test(i); present.push_back((int)i); }
+                std::sort(present.begin(), present.end());
+                if (int rc = check_walk("after addTest between runs", reg, present, order)) return rc;
+                break;
+            case CH_REMOVE_FIRST:
+                if (!order.empty()) {
+                    int gone = order[0];
+                    if (via_installer && !installers.empty()) installers.back()->unDo(); else reg.unDoLastAddTest();   // TestInstaller::unDo() == undo the last addTest of the current registry
+                    present.erase(std::find(present.begin(), present.end(), gone));
+                    std::vector<int> expect(order.begin() + 1, order.end());
+                    if (int rc = check_walk("after unDoLastAddTest between runs", reg, present, order)) return rc;
+                    V_CHECK(order == expect, "C02:remove-first", "unDoLastAddTest left %s, expected %s", show_ids(order).c_str(), show_ids(expect).c_str());
+                }
+                break;
+            case CH_REVERSE: if (int rc = reverse_checked()) return rc; break;
+            case CH_RUN_IGNORED_ON: reg.setRunIgnored(); run_ignored = true; break;
+            case CH_SEP_PROCESS_ON: reg.setRunTestsInSeperateProcess(); sep_on = true; break;
+            default: break;
+            }
+        }
+        if (do_shuffle) {
+            reg.shuffleTests(seed);
+            if (int rc = check_walk("after shuffleTests", reg, present, order)) return rc;
+        }
+        RecOutput out(g_runner_events);
+        TestResult tr(out);
+        reg.runAllTests(tr);
+        if (reg.rc) return reg.rc;
     }
     if (adjacent_equal) verif::cls("groups:adjacent-equal");
     if (nonadjacent_repeat) verif::cls("groups:same-group-in-two-runs");
@@ -472,6 +583,7 @@ extern "C" void verif_init(void) {
     verif::install_fake_time();
     g_orig_srand = PlatformSpecificSrand;
     g_orig_rand = PlatformSpecificRand;
+    g_orig_sep = PlatformSpecificRunTestInASeperateProcess;
 }
 extern "C" int verif_case(const uint8_t* data, size_t size) {
     Reader r(data, size);
@@ -479,6 +591,8 @@ extern "C" int verif_case(const uint8_t* data, size_t size) {
     reset_current_registry();
     PlatformSpecificSrand = g_orig_srand; PlatformSpecificRand = g_orig_rand;
     UtestShell::restoreDefaultTestTerminator();
+    UtestShell::setRethrowExceptions(false);
+    PlatformSpecificRunTestInASeperateProcess = g_orig_sep;
     verif::fake_millis_value = 0;
     bool nontrivial = false; std::string desc;
     int rc = run_case(r, nontrivial, desc);
